@@ -63,7 +63,7 @@ struct R : tulz::Runnable {
         vs::yield("in");
         ev("RunEnd", c.ok() ? 1 : 0);
     }
-    ~R() override { ev("Destroy"); }
+    ~R() { ev("Destroy"); }   // no "override": see pool_harness.cpp
 };
 
 __attribute__((noinline)) void scribble(void *trap) {
